@@ -189,7 +189,18 @@ class _Entry:
         return self.path
 
 
-class _Scan(list):
+class _Scan:
+    """Stand-in for the iterator os.scandir returns (os.walk calls next() on it, `with` and close() are used too)."""
+
+    def __init__(self, entries) -> None:
+        self._it = iter(list(entries))
+
+    def __iter__(self):
+        return self
+
+    def __next__(self):
+        return next(self._it)
+
     def __enter__(self):
         return self
 
